@@ -160,8 +160,7 @@ func init() {
 			if s.Const && sub.Const {
 				return TBV(64, uint64(int64(strings.LastIndex(s.S, sub.S))))
 			}
-			fault("symbolic strings.LastIndex")
-			return nil
+			return BVOfInt(i.lastIndexOf(s, sub))
 		}),
 		"strings.Split": S(func(i *Interp, a []value) value {
 			s, sep := sterm(a[0]), sterm(a[1])
